@@ -44,8 +44,9 @@ SUPPORTED: Dict[str, Callable[..., bool]] = {
     'RhombicToricCode': _even,
     'RhombicPlanarCode': lambda x, y, z: x >= 2 and y >= 2 and z >= 1,
     'HollowRhombicCode': lambda x, y, z: x >= 2 and y >= 2 and z >= 3,
-    # triangular patch: one size parameter (L_y ignored by the class)
-    'Color666PlanarCode': lambda x, y=None: x >= 1 and (y is None or y == x),
+    # triangular patch: one size parameter; an explicit L_y is accepted and
+    # ignored by the class, so (x, y != x) is the same lattice as (x, x)
+    'Color666PlanarCode': lambda x, y=None: x >= 1 and (y is None or y >= 1),
     'Color3DCode': _even,
     # documented parameters "unit cells in x / y": rectangular included
     'Color488Code': _ge(1),
@@ -134,7 +135,9 @@ def needle_sizes(cls_name: str, kmax: int, small=(2, 3)) -> List[Tuple[int, ...]
     ok = SUPPORTED[cls_name]
     out = []
     if cls_name == 'Color666PlanarCode':
-        return out
+        # explicit L_y different from L_x (ignored by the lattice)
+        return [s for s in [(3, 1), (4, 1), (2, 5), (1, 4), (5, 2), (6, 1)]
+                if max(s) <= kmax]
     for axis in range(dim):
         for c in small:
             for k in range(c + 1, kmax + 1):
